@@ -110,7 +110,7 @@ CHECKS = {
     "C04": {
         "engine": "CssVal", "design_ref": "DESIGN.md section 4 / C04 and section 10",
         "technique": "Coq proofs for the box shorthand (all value lists), hash colours (sRGBA kept, never longer), numeric tokens (number / percentage / dimension keep value and unit for every lexeme, the unit of a zero dropped only where allowed) and table facts over regenerated tables + exhaustive / generated byte correspondence with css.Minify; independent CSS value interpreter as search for all other rewrites",
-        "text": ("Theorems (Props/C04.v): the four-sides collapse of margin/padding/border-width keeps top, right, bottom, left for every value list, is minimal and "
+        "text": ("Alpha values: the rewrite of a minified number / percentage into the shorter of .X and X% (minifyNumberPercentage, Css/CssAlpha) keeps the value, is never longer and stays in the grammar for every token of the grammar (the proof's missing hypothesis was the real defect K137, repaired; tied on 2,000 alpha values per run). Theorems (Props/C04.v): the four-sides collapse of margin/padding/border-width keeps top, right, bottom, left for every value list, is minimal and "
                  "never longer; a rewritten hash colour has the same sRGBA and is not longer; every hex/keyword pair of the regenerated colour tables denotes the "
                  "same sRGB colour (K21 excepted); for EVERY numeric lexeme and either setting of KeepCSS2 a number token keeps its value, a percentage stays a "
                  "percentage of the same value, a dimension is written as a number of the same value followed by its lower-cased unit or as the bare 0 - the "
